@@ -264,7 +264,8 @@ fn chk_fault(kind: &str, mode: &str, data: &[u8], args: &[&str]) -> Result<(), S
     }
     let n = c0.ops;
     // positions of the last propagating operation: operations issued from a Drop are after the last flush
-    let stride = if n > 600 { n / 300 } else { 1 };
+    let thorough = std::env::var("PM_TIER").map_or(false, |t| t == "thorough");
+    let stride = if thorough { if n > 40_000 { n / 20_000 } else { 1 } } else if n > 600 { n / 300 } else { 1 };
     let mut k = 0usize;
     while k < n {
         let mut core = Core::new(data.to_vec(), 0);
